@@ -167,13 +167,13 @@ BATCHES = [("isod", "isolated", 0.0, 0.12, 0.3, 1.0, True), ("djad", "django", 0
            ("isop", "isolated", 0.0, 0.12, 0.9, 0.5, True), ("djap", "django", 0.0, 0.0, 0.9, 0.5, True)]
 
 
-def run(tier, seed):
+def run(tier, seed, report_as=None):
     import djsetup
     import gen_constants
     djsetup.setup()
     djsetup.patch_ids()
     gen_constants.generate(["C01M"])
-    chk = C.Check("C01M", tier, seed)
+    chk = C.Check("C01M", tier, seed, report_as=report_as)
     chk.prove()
     n = 1200 if tier == "thorough" else int(os.environ.get("C01M_N", "180"))
     shared, own = corpus_programs()
